@@ -147,7 +147,7 @@ def run(tier, seed):
             "every single storyline clause of <= 6 bytes over {a,b,.,+,_,' '} through the real parser and compiler": summary["single_clause_exhaustive_len6"],
             "every pair of single-act clauses with valid acts of <= 3 bytes over {a,b,.,+,_}": summary["two_clauses_exhaustive_len3"],
         },
-        "rule": "pairs: (sampled in quick, all in thorough) pairs of the %d valid acts of <= 4 bytes over {a,b,.,+} plus random acts of up to 10 columns, through the real combineActs. scripts, all through the real parseScript clause by clause (cfg.storyLine recorded after each), then the whole text through reader + parseCfg + compileV2 + printSteps: single clauses of <= 6 bytes; 2-3 clauses of 1-2 acts of <= 5 bytes over {a,b,.,+,_} (3%% malformed) with a fixed set of definitions (single-actor and every-role entails over a two-actor role, several entails per scene, an entail without actions, mood starts and ends) and sometimes a literal edit; an edit-shapes stream (1-3 such clauses interleaved with edits from three sources: 20 literal replacements that introduce +, ., _ and blanks - new groups, split and joined acts; a corpus of 26 regular expressions plus random ones with a Coq twin, judged by the oracle's own leftmost-first matcher (a|ab, ab|a, b.*?, a*?, a*, (a|ab)(b|), ^, $, ' *' ...); 16 regular expressions with $n etc. whose result the harness supplies); random scripts (1-3 cast entries incl. multi-actor ones, 1-5 scenes with shuffled entails / mood definitions incl. roles without actors, 1-4 clauses of 1-4 acts of up to 10 columns with + groups, . and _, 4%% malformed, literal edits with / , | separators and optional g and some regular-expression edits, definitions after the first storyline, 15 tempos incl. 0s, 2500us, 1.5ms, 999999ns, 33.333ms, 1h, 1h0m0.000000001s, tempo clause anywhere; every scene time compared in integer nanoseconds and the printed dump byte for byte). A sample is also run through the real binary (-n -p) and its dump compared with the hook's. non-trivial = accepted script with >= 2 storyline clauses or an edit AND a + group or a mood change in the result (distinct by text), or a pair of acts of >= 2 bytes each (distinct)." % summary["small_valid_acts_len4"],
+        "rule": "pairs: (sampled in quick, all in thorough) pairs of the %d valid acts of <= 4 bytes over {a,b,.,+} plus random acts of up to 10 columns, through the real combineActs. scripts, all through the real parseScript clause by clause (cfg.storyLine recorded after each), then the whole text through reader + parseCfg + compileV2 + printSteps: single clauses of <= 6 bytes; 2-3 clauses of 1-2 acts of <= 5 bytes over {a,b,.,+,_} (3%% malformed) with a fixed set of definitions (single-actor and every-role entails over a two-actor role, several entails per scene, an entail without actions, mood starts and ends) and sometimes a literal edit; an edit-shapes stream (1-3 such clauses interleaved with edits from three sources: 20 literal replacements that introduce +, ., _ and blanks - new groups, split and joined acts; a corpus of 26 regular expressions plus random ones with a Coq twin, judged by the oracle's own leftmost-first matcher (a|ab, ab|a, b.*?, a*?, a*, (a|ab)(b|), ^, $, ' *' ...); 16 regular expressions with $n etc. whose result the harness supplies); a late-cast stream (cast / script / cast / script: scenes defined for `every <role>`, the role gains actors through a further cast section, then defined again for `every <role>` and for newcomers; the denotation resolves `every <role>` against the cast hired so far); random scripts (35%% with a further cast section between `every <role>` clauses; 1-3 cast entries incl. multi-actor ones, 1-5 scenes with shuffled entails / mood definitions incl. roles without actors, 1-4 clauses of 1-4 acts of up to 10 columns with + groups, . and _, 4%% malformed, literal edits with / , | separators and optional g and some regular-expression edits, definitions after the first storyline, 15 tempos incl. 0s, 2500us, 1.5ms, 999999ns, 33.333ms, 1h, 1h0m0.000000001s, tempo clause anywhere; every scene time compared in integer nanoseconds and the printed dump byte for byte). A sample is also run through the real binary (-n -p) and its dump compared with the hook's. non-trivial = accepted script with >= 2 storyline clauses or an edit AND a + group or a mood change in the result (distinct by text), or a pair of acts of >= 2 bytes each (distinct)." % summary["small_valid_acts_len4"],
         "samples": summary["samples"],
         "distribution": {k: summary[k] for k in ("pairs", "scripts", "streams", "accepted", "refused", "with_edit",
                                                  "with_mood", "with_plus_group", "max_act_bytes", "max_acts",
